@@ -136,9 +136,52 @@ def extended_cases(rng, n):
     out = []
     for i in range(n):
         ks = [rng.randint(1, 9) for _ in range(6)]
-        kind = i % 5
+        kind = i % 9
+        if kind >= 5:
+            a, b, c, k, j = ks[:5]
+            pre2 = ("xs: [int...] = [%d, %d, %d]\nclass Box {\n  v: int\n  constructor(self, v: int) {\n    self.v = v\n  }\n}\nbox = Box(%d)\n"
+                    "mm = map[str, int] { \"a\": %d }\n"
+                    "bump = fn(n: int) -> int {\n  print n\n  xs[0] = xs[0] + 100\n  box.v = box.v + 1000\n  mm[\"a\"] = mm[\"a\"] + 10000\n  return n\n}\n"
+                    "getxs = fn(n: int) -> [int...] {\n  print n\n  return xs\n}\n"
+                    "pair = fn(p: int, q: int) -> int {\n  return p * 1000 + q\n}\n" % (a, b, c, a, a))
+            if kind == 5:
+                # an earlier operand that is an element / field / map value keeps the value it had when it was evaluated,
+                # although a LATER sibling writes that very slot
+                form = rng.choice(["elem+", "field+", "map+", "arg", "arg-field", "callres", "list", "deep"])
+                if form == "elem+":
+                    src, exp = pre2 + "print xs[0] + bump(%d)\n" % k, [str(k), str(a + k)]
+                elif form == "field+":
+                    src, exp = pre2 + "print box.v - bump(%d)\n" % k, [str(k), str(a - k)]
+                elif form == "map+":
+                    src, exp = pre2 + "print mm[\"a\"] * bump(%d)\n" % k, [str(k), str(a * k)]
+                elif form == "arg":
+                    src, exp = pre2 + "print pair(xs[0], bump(%d))\n" % k, [str(k), str(a * 1000 + k)]
+                elif form == "arg-field":
+                    src, exp = pre2 + "print pair(box.v, bump(%d))\n" % k, [str(k), str(a * 1000 + k)]
+                elif form == "callres":
+                    src, exp = pre2 + "print (getxs(%d))[log(0)] - bump(%d)\n" % (j, k), [str(j), "0", str(k), str(a - k)]
+                elif form == "list":
+                    src, exp = pre2 + "print [xs[0], bump(%d), xs[0]]\n" % k, [str(k), "[%d, %d, %d]" % (a, k, a + 100)]
+                else:
+                    src, exp = pre2 + "print xs[0] + (log(%d) * (log(1) + bump(%d)))\n" % (j, k), [str(j), "1", str(k), str(a + j * (1 + k))]
+            elif kind == 6:
+                # map literal: pairs in SOURCE order (keys not in sorted order, constant and computed keys mixed), key before value
+                keys = rng.sample(range(1, 9), 3)
+                if sorted(keys) == keys:
+                    keys.reverse()
+                src = "m = map[int, int] { %d: log(%d), %d: pair(log(%d), log(%d)), %d: log(%d) }\nprint m.len()\n" % (keys[0], a, keys[1], b, c, keys[2], k)
+                src = pre2 + src
+                exp = [str(a), str(b), str(c), str(k), "3"]
+            elif kind == 7:
+                src = pre2 + "m = map[str, [int...]] { \"b\": [log(%d), log(%d)], \"a\": [log(%d)] }\nprint m.len()\n" % (a, b, c)
+                exp = [str(a), str(b), str(c), "2"]
+            else:
+                src = pre2 + "m = map[int, int] { 9: log(%d), log(8): log(%d), 3: log(%d) }\nprint m.len()\n" % (a, b, c)
+                exp = [str(a), "8", str(b), str(c), "3"]
+            out.append((src, exp))
+            continue
         if kind == 0:
-            src = "l = [log(%d), log(%d), log(%d)]\nprint l\n" % tuple(ks[:3])
+            src = "l: [int...] = [log(%d), log(%d), log(%d)]\nprint l\n" % tuple(ks[:3])
             exp = [str(k) for k in ks[:3]] + ["[%d, %d, %d]" % tuple(ks[:3])]
         elif kind == 1:
             src = "l: [int...] = [10, 20, 30]\nprint l[log(%d) - %d] + log(%d)\n" % (ks[0], ks[0], ks[1])
@@ -150,7 +193,7 @@ def extended_cases(rng, n):
             src = 'm = map[int, int] { log(%d): log(%d), log(%d): log(%d) }\nprint m.len()\n' % (ks[0], ks[1], ks[0] + 10, ks[2])
             exp = [str(ks[0]), str(ks[1]), str(ks[0] + 10), str(ks[2]), "2"]
         else:
-            src = "l = [[log(%d), log(%d)], [log(%d)]]\nprint (l[log(0)])[log(%d) - %d]\n" % (ks[0], ks[1], ks[2], ks[3], ks[3])
+            src = "l: [[int...]...] = [[log(%d), log(%d)], [log(%d)]]\nprint (l[log(0)])[log(%d) - %d]\n" % (ks[0], ks[1], ks[2], ks[3], ks[3])
             exp = [str(ks[0]), str(ks[1]), str(ks[2]), "0", str(ks[3]), str(ks[0])]
         out.append((src, exp))
     return out
@@ -190,7 +233,7 @@ def run(ctx):
             ctx.report("generator-rejected", "an evaluation-order program is rejected by the compiler: %s" % r.get("stderr", "")[-300:],
                        {"project": coretie.slim(r["proj"])}, found_input=False)
     # extended stream with the Python oracle
-    ext = extended_cases(ctx.rng, 40 if ctx.quick() else 400)
+    ext = extended_cases(ctx.rng, 90 if ctx.quick() else 900)
     base = ctx.mktemp()
     pre = "log = fn(k: int) -> int {\n  print k\n  return k\n}\n"   # (extended stream: values are used as given)
 
@@ -202,6 +245,9 @@ def run(ctx):
     n_ext = 0
     for src, exp, rc, out, err in programs.pmap(one, ext):
         if rc != 0 and "Did not compile" in (out + err):
+            # a rejected case checks nothing: the generator must be repaired, not the case skipped
+            ctx.report("generator-rejected", "an extended evaluation-order case is rejected by the compiler: %s" % (out + err)[-300:],
+                       {"program": pre + src}, found_input=False)
             continue
         n_ext += 1
         got = out.split("\n")[:-1]
